@@ -202,21 +202,23 @@ def check_vector(v):
         hdr = "".join(l + "\n" for l in ["##fileformat=VCFv4.2", "#CHROM\tPOS\tID\tREF\tALT\tQUAL\tFILTER\tINFO"]).encode()
         hdr2 = "".join(l + "\n" for l in ["##fileformat=VCFv4.2", "##source=another file", "#CHROM\tPOS\tID\tREF\tALT\tQUAL\tFILTER\tINFO"]).encode()
         if want.startswith(hdr):
-            def other_header(lazy):
+            def other_header(lazy, replaced=False):
                 src2 = os.path.join(d, "src2" + suffix)
                 with open(src2, "wb") as f:
                     f.write(hdr2 + want[len(hdr):])
                 out2 = os.path.join(d, "out2" + suffix)
                 t2 = bnp.open(src2, lazy=lazy, **kw).read()
+                if replaced:
+                    t2 = bnp.replace(t2, position=t2.position)          # a column replaced by itself: still the entries of that file
                 with bnp.open(out2, "w", **kw) as w:
                     w.write(t2[:1])
                     w.write(t2[1:])
                 return open(out2, "rb").read()
-            for lazy in (None, False):
-                o = outcome(other_header, lazy)
+            for lazy, rep_ in ((None, False), (False, False), (None, True), (False, True)):
+                o = outcome(other_header, lazy, rep_)
                 n += 1
                 if o != ("ok", hdr2 + want[len(hdr):]):
-                    bad.append({"what": "a file with another header read in the same process is not written with its own header", "tags": dict(tags0, kind="bytes", target="other-header", lazy=lazy is None),
+                    bad.append({"what": "a file with another header read in the same process is not written with its own header", "tags": dict(tags0, kind="bytes", target="other-header", lazy=lazy is None, replaced=rep_),
                                 "vector": {k: v[k] for k in v if not k.startswith("_")}, "expected": (hdr2 + want[len(hdr):]).decode("latin-1")[:300], "observed": str(o)[:300]})
     import shutil
     shutil.rmtree(d, ignore_errors=True)
